@@ -219,7 +219,7 @@ def parse_date(date):
         try:
             date = text_to_date(date)
             return date.replace(tzinfo=None) if date.tzinfo is not None else date
-        except (ValueError, OverflowError):  # dateutil overflows on "99999999999999999999 1"
+        except (ValueError, ArithmeticError):  # dateutil overflows on "99999999999999999999 1" and computes with "1111...1m"
             pass
     return error.VALUE
 
